@@ -62,15 +62,16 @@ example : (lex "a = \"".toList).err = some (1, 4) := by decide +kernel
 
 /-! ### parser: the raw print of an accepted input is the input -/
 
-/-- the full statement of losslessness (false of the code as it is, see the counterexamples) -/
+/-- the full statement of losslessness (still false of the code: keyword-before-positional, see below) -/
 def raw_roundtrip_full : Prop := ∀ (s : Str) (r : ParseOk), parse s = .ok r → emit r.tree = s
 
-/-- `raw_roundtrip_partial`: for **every** input the parser accepts, unless one of the two lossy events happened
-(`e4` consumed a `not` that no `in` follows; a positional argument was appended after a keyword argument —
-both counted by the ghost field `lossy`), `RawPrinter` reproduces the input exactly. Proved production by
-production with the ghost-output-stream invariant (`RoundTrip.lean`): `e10`, `e9`, `e8`, method calls, indexing,
-`e7 … e1` (incl. `not in` and the ternary), `args`, `key_values`, `foreach`, `if/elif/else`, `line`,
-`codeblock`, `parse` — no production is left uncovered, no `inFragment` hypothesis remains. -/
+/-- `raw_roundtrip_partial`: for **every** input the parser accepts, unless a positional argument was appended
+after a keyword argument (`ArgumentNode.order_error`, counted by the ghost field `lossy`), `RawPrinter`
+reproduces the input exactly — no token of an accepted file is dropped. Proved production by production with
+the ghost-output-stream invariant (`RoundTrip.lean`): `e10`, `e9`, `e8`, method calls, indexing, `e7 … e1`
+(incl. `not in` and the ternary), `args`, `key_values`, `foreach`, `if/elif/else`, `line`, `codeblock`,
+`parse` — no production is left uncovered, no `inFragment` hypothesis remains. (Since /repo 34437f4 a `not`
+that no `in` follows is a located error, so that event no longer exists.) -/
 theorem raw_roundtrip_partial (s : Str) (names : List (Str × Nat)) (r : ParseOk)
     (h : parseWith names s = .ok r) (hl : r.lossy = 0) : emit r.tree = s :=
   parse_roundtrip h hl
@@ -102,16 +103,18 @@ def errOf (s : String) : Option Err :=
   | .ok _ => none
   | .error e => some e
 
-/-- F-PARSE-NOT: `a = b not` is accepted and the `not` is in no node -/
-theorem dangling_not_dropped : outOf "a = b not\n" = some "a = b \n".toList := by decide +kernel
+/-- a `not` that no `in` follows is rejected at the token after it (repaired in /repo 34437f4; it used to be
+accepted with the `not` in no node) -/
+theorem dangling_not_rejected : errOf "a = b not\n" = some (.parse 1 9) := by decide +kernel
 
-/-- F-PARSE-KWORDER: a keyword argument before a positional one is printed back reordered -/
+/-- F-PARSE-KWORDER (recorded, not repaired): a keyword argument before a positional one is printed back
+reordered -/
 theorem kwarg_before_positional_reordered : outOf "f(a: 1, b)\n" = some "f(b, a: 1)\n".toList := by decide +kernel
 
 /-- the full statement is false of the code as it is -/
 theorem raw_roundtrip_counterexample : ¬ raw_roundtrip_full := by
   intro h
-  have h1 : outOf "a = b not\n" = some "a = b \n".toList := dangling_not_dropped
+  have h1 : outOf "f(a: 1, b)\n" = some "f(b, a: 1)\n".toList := kwarg_before_positional_reordered
   unfold outOf at h1
   split at h1
   · rename_i r hr
@@ -129,28 +132,25 @@ def Err.located : Err → Bool
   | .block _ _ => true
   | _ => false
 
-/-- the full statement "no internal Python error ever escapes" (false of the code as it is) -/
-def no_internal_error_full : Prop := ∀ (s : Str) (e : Err), parse s = .error e → Err.located e = true
+/-- `no_internal_error`: every exception the parser model can raise is a located `ParseException` /
+`BlockParseException`, apart from the two outcomes that are not behaviours of the code on lexer output:
+`fuel` (artefact of the model's recursion bound; never produced on any of the inputs of the correspondence) and
+`notInNoWs` (the `AttributeError` of `e4` when a `not` token is immediately followed by an `in` token, which
+the lexer's identifier pattern cannot produce). Since /repo 02dfd45 (escape errors) and the `key_values` repair
+(unhashable dict key) no `UnicodeDecodeError` / `TypeError` constructor exists any more. -/
+theorem no_internal_error_partial (s : Str) (e : Err) (_h : parse s = .error e)
+    (hf : e ≠ .fuel) (hn : e ≠ .notInNoWs) : Err.located e = true := by
+  cases e <;> simp_all [Err.located]
 
-/-- F-PARSE-HASH: a dict key containing an `EmptyNode` makes `key_values` raise `TypeError` -/
-theorem unhashable_key_escapes : errOf "a = {-: 1}\n" = some .unhashableKey := by decide +kernel
+/-- the former witnesses are now located errors -/
+theorem unhashable_key_located : errOf "a = {-: 1}\n" = some (.parse 1 6) := by decide +kernel
+theorem unknown_name_located : errOf "x = '\\N{foo}'\n" = some (.parse 1 4) := by decide +kernel
+theorem illegal_codepoint_located : errOf "x = '\\UFFFFFFFF'\n" = some (.parse 1 4) := by decide +kernel
 
-/-- F-PARSE-UNICODE: an unknown `\N{…}` name / an escape above U+10FFFF make `StringNode.escape` raise -/
-theorem unknown_name_escapes : errOf "x = '\\N{foo}'\n" = some (.badEscape .unknownName) := by decide +kernel
-theorem illegal_codepoint_escapes : errOf "x = '\\UFFFFFFFF'\n" = some (.badEscape .illegalCodepoint) := by
-  decide +kernel
-
-theorem no_internal_error_counterexample : ¬ no_internal_error_full := by
-  intro h
-  have h1 : errOf "a = {-: 1}\n" = some .unhashableKey := unhashable_key_escapes
-  unfold errOf at h1
-  split at h1
-  · cases h1
-  · rename_i e he
-    have := h _ e he
-    simp at h1; subst h1
-    simp [Err.located] at this
-
+/-- line bookkeeping follows a newline inside a single-quoted string (lexer repair): the call on the third line
+is recorded on line 3 -/
+example : ((lex "x = 'a\nb'\nf()\n".toList).toks.map (fun t => (t.lineno, t.colno))).drop 6 =
+    [(3, 0), (3, 1), (3, 2), (3, 3)] := by decide +kernel
 
 /-! ### grammar facts (shape of accepted trees; used by C01/C17) -/
 
